@@ -104,7 +104,6 @@ EXPORT errno_t _memmove16_s_chk(uint16_t *dest, rsize_t dmax,
         BND_CHK_PTR_BOUNDS(dest, smax);
     } else {
         CHK_DEST_MEM_OVR("memmove16_s", destbos)
-        dmax = destbos;
     }
     CHK_SRC_MEM_NULL_CLEAR("memmove16_s", src)
     CHK_SLEN_MEM_MAX_NOSPC_CLEAR("memmove16_s", smax, RSIZE_MAX_MEM)
